@@ -59,7 +59,7 @@ def cases(tier, seed):
             cs.append(c)
     # scale: a box of more than a million cells (8.9 MiB per field) at the start of a cook-and-combine-back pipeline
     for k in range(1 if tier == "quick" else 3):
-        cs.append({"kind": "hist", "scale": "bigbox", "gen": dict(seed=seed * 23 + 1414 + k, names=["f0", "f1", "f2"]),
+        cs.append({"kind": "hist", "scale": "bigbox", "gen": dict(seed=seed * 23 + 1414 + k, names=["f0", "f1", "f2"], shuffle=False),
                    "history": ["chef", "combine_sibling"] if k % 2 == 0 else ["combine_sibling", "colander"], "sel_seed": seed * 83 + 1414 + k})
     for k in range(2 if tier == "quick" else 8):     # 2D colander chains
         g = dict(seed=rng.randrange(10 ** 9), ndims=2, nlevels=2 + k % 2, bf=4, names=["f0", "f1", "f2"], base_blocks=(1, 3))
